@@ -190,6 +190,39 @@ def gen_case(rng, maxc=12, nfrag=None):
     return {'contigs': contigs, 'records': recs, 'name_form': name_form}
 
 
+def layout_cases(kmax):
+    """exhaustive small scope for the end-to-end check: every header of 1..kmax contigs over {small, LARGE}, every
+    non-empty subset of contigs carrying one proper pair, with / without one unplaced unmapped read"""
+    tg = {'SM': 'LIBA_1', 'BC': 'ACGTACGT', 'RX': 'ACG', 'MI': 'ACGTACGTACG', 'LY': 'LIBA', 'Fc': 'HXXFC', 'La': '1'}
+    out = []
+    for k in range(1, kmax + 1):
+        for sizes in itertools.product((700, 150000), repeat=k):
+            for live in itertools.product((0, 1), repeat=k):
+                if not any(live):
+                    continue
+                for un in (0, 1):
+                    recs = []
+                    for ci in range(k):
+                        if not live[ci]:
+                            continue
+                        name = 'NS500:1:HXXFC:1:1101:%d:%d' % (2000 + ci, 3000 + len(out) % 1000)
+                        s1 = 'CATG' + 'ACGTTGCAAGGCTTAACCGG'[ci:ci + 16] + 'ACGT'
+                        s2 = 'TTGACCGGTAACGTTGCAAGGCTT'[ci:ci + 20]
+                        recs.append({'n': name, 'f': PAIRED | PROPER | MREV | R1, 't': ci, 'p': 100, 'q': 60, 'c': '%dM' % len(s1),
+                                     's': s1, 'ql': 'J' * len(s1), 'nt': ci, 'np': 150, 'tags': dict(tg), 'kind': 'pair'})
+                        recs.append({'n': name, 'f': PAIRED | PROPER | REV | R2, 't': ci, 'p': 150, 'q': 60, 'c': '%dM' % len(s2),
+                                     's': s2, 'ql': 'F' * len(s2), 'nt': ci, 'np': 100, 'tags': dict(tg), 'kind': 'pair'})
+                    if un:
+                        recs.append({'n': 'NS500:1:HXXFC:1:1101:9999:%d' % (3000 + len(out) % 1000), 'f': UNMAP, 't': -1, 'p': -1, 'q': 0,
+                                     'c': '', 's': 'CATGGTTTACCAGGAT', 'ql': 'A' * 16, 'nt': -1, 'np': -1, 'tags': dict(tg),
+                                     'kind': 'unmapped_single'})
+                    for i, r in enumerate(recs):
+                        r['tags']['zi'] = i
+                    out.append({'contigs': [['k%d' % i, sizes[i]] for i in range(k)], 'records': recs, 'name_form': 'tags',
+                                'layout': True})
+    return out
+
+
 def run_args(method, mode, threads=None, no_rejects=False):
     a = ['-method', method]
     if mode == 'multi':
@@ -313,7 +346,16 @@ class Prop(fw.PropBase):
             cases.append(c)
         for i in range(6 if quick else 40):
             cases.append(gen_malformed(self.rng))
+        lay = layout_cases(2 if quick else 4)
+        self.n_layout = len(lay)
+        for c in lay:
+            c['run_specs'] = [{'method': 'nla', 'mode': 'single', 'nr': False},
+                              {'method': 'nla', 'mode': 'multi', 'threads': 2, 'nr': False},
+                              {'method': 'qflag', 'mode': 'multi', 'threads': 3, 'nr': False}]
+            c['runs'] = [run_args(r['method'], r['mode'], r.get('threads'), r['nr']) for r in c['run_specs']]
         for c in cases:
+            if 'run_specs' in c:
+                continue
             runs = []
             for m in METHODS:
                 runs.append({'method': m, 'mode': 'single', 'nr': False})
@@ -324,7 +366,7 @@ class Prop(fw.PropBase):
                     runs.append({'method': m, 'mode': 'multi', 'threads': self.rng.randint(1, 4), 'nr': True})
             c['run_specs'] = runs
             c['runs'] = [run_args(r['method'], r['mode'], r.get('threads'), r['nr']) for r in runs]
-        return cases
+        return cases + lay
 
     def corpus_cases(self):
         d = os.path.join(fw.VERIF, 'corpus', 'C05')
@@ -572,7 +614,10 @@ class Prop(fw.PropBase):
             'traces_validated_against_impl': n_traces,
             'spec_violations_on_impl': len(spec_bad), 'disagreements': len(dis),
             'exhaustive': False,
-            'exhaustive_scope': 'slice only: all small/LARGE/* patterns up to length %d' % (5 if self.tier == 'quick' else 7),
+            'exhaustive_scope': 'slice: all small/LARGE/* patterns up to length %d; end-to-end: all %d layouts of 1..%d contigs over '
+                                '{small, LARGE} x non-empty subsets carrying one pair x with/without an unplaced read'
+                                % (5 if self.tier == 'quick' else 7, getattr(self, 'n_layout', 0), 2 if self.tier == 'quick' else 4),
+            'layout_libraries': getattr(self, 'n_layout', 0),
             'samples': [{'slice_input': slices[len(csl) + 40], 'impl_jobs': sres['outs'][len(csl) + 40].get('jobs')},
                         {'library': {'contigs': cases[len(ce2e)]['contigs'], 'n_records': len(cases[len(ce2e)]['records']),
                                      'first_records': [[x['n'], x['f'], x['t'], x['p'], x['c']] for x in cases[len(ce2e)]['records'][:4]]},
@@ -594,8 +639,15 @@ class Prop(fw.PropBase):
                 raise fw.Broken('extraction', 'vm_compute and extracted model disagree: ' + (log1 if not ok1 else log2)[-800:])
         if dis:
             self.dis = dis
-            raise fw.Broken('correspondence', 'model and implementation disagree on %d cases; first: %s'
-                            % (len(dis), json.dumps(dis[0], default=str)[:1500]))
+            hint = ''
+            sd = [d for d in dis if d['level'] == 'slice' and 'impl' in d]
+            if sd and self.model_ok:
+                encs = [self.enc_slice(d['input']) for d in sd]
+                old = fw.run_model('C05', 4, [e for e, _ in encs])
+                if all(self.dec_jobs(o, inv) == d['impl'] for d, (e, inv), o in zip(sd, encs, old)):
+                    hint = ' [the job block of this tree behaves exactly like the unrepaired D8 block (Model contig_jobs_old)]'
+            raise fw.Broken('correspondence', 'model and implementation disagree on %d cases%s; first: %s'
+                            % (len(dis), hint, json.dumps(dis[0], default=str)[:1500]))
         if spec_bad:
             raise fw.Broken('correspondence', 'the implementation violates the specification on %d runs; first: %s'
                             % (len(spec_bad), spec_bad[0]['what'][:800]))
